@@ -45,9 +45,11 @@ structure StrictWeak (lt : α → α → Bool) : Prop where
     lt a c = false ∧ lt c a = false
 
 /-- `operator==` of the key type agrees with the equivalence the comparator induces: two keys that are
-    not ordered either way are the same key.  Needed ONLY by the members that are written with
-    `operator==` instead of the comparator: `static_set::find/contains/count(key_type const&)`
-    (`etl::find`) and `flat_set::erase(key_type const&)` (`etl::remove`). -/
+    not ordered either way are the same key.  NO member of static_set / flat_set depends on it any more (the two
+    that did — `static_set::find(key_type const&)` through `etl::find`, `flat_set::erase(key_type const&)` through
+    `etl::remove` — were repaired, findings F-C09-ss-find-eq / F-C09-fs-erase-key-eq); it remains as the
+    difference between the former hypothesis `StrictTotal` and `StrictWeak`, and as the condition under which
+    the sorted permutation `flat_multiset` builds is unique. -/
 def EquivIsEq (lt : α → α → Bool) : Prop := ∀ a b, lt a b = false → lt b a = false → a = b
 
 theorem StrictWeak.asymm {lt : α → α → Bool} (h : StrictWeak lt) {a b : α} (hab : lt a b = true) :
